@@ -469,3 +469,88 @@ pub fn families_surface_shapes(prop: &str, doc: &Value) -> (Vec<Pair>, usize) {
 	}
 	(v, seen)
 }
+
+/// `t_is_data`: the owner's type parameter `T` is the protected value (single
+/// locks); in the impls of collections `T` is just some conversion target
+fn mentions_data(t: &Value, t_is_data: bool) -> bool {
+	match t {
+		Value::Object(m) => {
+			if t_is_data && m.get("generic").and_then(|g| g.as_str()) == Some("T") {
+				return true;
+			}
+			if let Some(q) = m.get("qualified_path") {
+				if let Some(n) = q.get("name").and_then(|n| n.as_str()) {
+					if ["DataRef", "DataMut", "Inner", "Guard", "ReadGuard"].contains(&n) {
+						return true;
+					}
+				}
+			}
+			m.values().any(|x| mentions_data(x, t_is_data))
+		}
+		Value::Array(a) => a.iter().any(|x| mentions_data(x, t_is_data)),
+		_ => false,
+	}
+}
+
+/// S5 (C15): a safe function of a lock or collection that takes nothing but
+/// `&self` - no key, no guard, no exclusive borrow - and whose result mentions
+/// the protected data (`T`, `DataRef`, `DataMut`, `Inner`, a guard type) reads
+/// or hands out data nobody holds the lock for.  Raw pointers are left alone
+/// (obtaining one is harmless, dereferencing it is unsafe).
+pub fn families_surface_keyless_data(prop: &str, doc: &Value) -> (Vec<Pair>, usize) {
+	let mut v = Vec::new();
+	let mut seen = 0usize;
+	let region = |t: &str| format!("//<<\n{t}\n//>>");
+	let owners = ["Mutex", "RwLock", "Poisonable", "BoxedLockCollection", "RefLockCollection", "OwnedLockCollection", "RetryingLockCollection"];
+	for (owner, tr, ta, name, func) in functions_of(doc, &owners) {
+		seen += 1;
+		let inputs = func["sig"].get("inputs").and_then(|i| i.as_array()).cloned().unwrap_or_default();
+		if inputs.len() != 1 || is_self_ref(&inputs[0][1]) != Some(false) {
+			continue;
+		}
+		let generic_types = func
+			.get("generics")
+			.and_then(|g| g.get("params"))
+			.and_then(|p| p.as_array())
+			.map(|p| p.iter().filter(|x| x.get("kind").map(|k| k.get("type").is_some()).unwrap_or(false)).count())
+			.unwrap_or(0);
+		if generic_types > 0 {
+			continue;
+		}
+		let output = func["sig"].get("output").cloned().unwrap_or(Value::Null);
+		let t_is_data = matches!(owner.as_str(), "Mutex" | "RwLock");
+		if output.is_null() || output.get("raw_pointer").is_some() || !mentions_data(&output, t_is_data) {
+			continue;
+		}
+		let is_self = inputs[0].get(0).and_then(|n| n.as_str()) == Some("self");
+		let decls: Vec<(&str, String)> = match owner.as_str() {
+			"Mutex" => vec![("Mutex", "    let s = Mutex::new(1i32);".into())],
+			"RwLock" => vec![("RwLock", "    let s = RwLock::new(1i32);".into())],
+			"Poisonable" => vec![("Poisonable<Mutex>", "    let s = Poisonable::new(Mutex::new(1i32));".into()), ("Poisonable<RwLock>", "    let s = Poisonable::new(RwLock::new(1i32));".into())],
+			"BoxedLockCollection" => vec![("LockCollection<[Mutex; 2]>", "    let s = LockCollection::new([Mutex::new(1i32), Mutex::new(2i32)]);".into())],
+			"RefLockCollection" => vec![("RefLockCollection<[Mutex; 2]>", "    let d = [Mutex::new(1i32), Mutex::new(2i32)];\n    let s = RefLockCollection::new(&d);".into())],
+			"OwnedLockCollection" => vec![("OwnedLockCollection<[RwLock; 2]>", "    let s = OwnedLockCollection::new([RwLock::new(1i32), RwLock::new(2i32)]);".into())],
+			_ => vec![("RetryingLockCollection<[RwLock; 2]>", "    let s = RetryingLockCollection::new([RwLock::new(1i32), RwLock::new(2i32)]);".into())],
+		};
+		for (subj, decl) in decls {
+			let call = match (&tr, is_self) {
+				(Some(t), _) if ["AsRef", "Borrow", "Deref", "Index"].contains(&t.as_str()) => {
+					let args = if ta > 0 { format!("<{}>", vec!["_"; ta].join(", ")) } else { String::new() };
+					format!("<_ as {t}{args}>::{name}(&s)")
+				}
+				(_, true) => format!("s.{name}()"),
+				(_, false) => format!("{owner}::{name}(&s)"),
+			};
+			let template = format!("{PRELUDE}use std::ops::{{Deref, DerefMut, Index, IndexMut}};\nuse std::borrow::{{Borrow, BorrowMut}};\npub fn probe() {{\n{decl}\n@@\n}}\n");
+			v.push(Pair {
+				prop: prop.into(),
+				family: "S5-surface-data-without-key-or-exclusive-borrow".into(),
+				name: format!("{owner}::{name}{} on {subj}", tr.as_ref().map(|t| format!(" ({t})")).unwrap_or_default()),
+				twin: template.replace("@@", &region("    let _n = std::mem::size_of_val(&s);")),
+				offending: template.replace("@@", &region(&format!("    let _data = {call};"))),
+				std_offending: None,
+			});
+		}
+	}
+	(v, seen)
+}
